@@ -11,7 +11,7 @@ NOTES = {
  'C09-m1': ('C09', 'exposure sections parsed back (IP rows)'), 'C09-m2': ('C09', 'exposure sections parsed back (selector rendering)'),
  'C13-m2': ('C13', 'rule: a fatal entry in Errors() never comes with connections; a decodable Service with an illegal selector value'),
  'C13-m3': ('C13', 'diff with the junk on the second side'),
- 'C14-m2': ('C14', 'more spelling edits, mixed selectors'), 'C14-m3': ('C14', 'checker ids kept small (nat literal overflow in the harness)'),
+ 'C14-m2': ('C14', 'more spelling edits, mixed selectors; a dedicated policy whose peer has labels plus a narrowing expression'), 'C14-m3': ('C14', 'checker ids kept small (nat literal overflow in the harness)'),
  'C15-m2': ('C15', 'ANP sandwich history motif'), 'C15-m3': ('C15', 'two-NetworkPolicy history motif'),
  'C16-m1': ('C16', 'workload names that are suffixes of one another'),
  'C17-m2': ('C17', 'extra non-controller ownerReference listed first'), 'C17-m3': ('C17', 'namespace omitted in the manifest (default)'),
@@ -19,6 +19,25 @@ NOTES = {
  'C19-m2': ('C19', 'empty-valued label in the owner-consistency injection'),
  'C07-m1': ('C07, C06', 'refinement-boundary motif (label equalities satisfied by an existing workload, with/without a failing expression)'),
  'C07-m3': ('C07, C06', 'entire-cluster connection with a one-port hole next to a named-port rule'),
+ # round 2
+ 'C01-m4': ('C01', 'CIDRs equal to the host address of the pods'), 'C01-m6': ('C01', 'workloads with two containers; a policy naming exactly the declared port names'),
+ 'C02-m5': ('C15', 'a history defect (cache kept over an ANP insertion): caught by the C15 check, C02 has no histories'),
+ 'C03-m4': ('C03', 'the same workload (name, kind, owner) in two namespaces under one engine'), 'C03-m6': ('C03', 'ANP rules with a present but empty ports list'),
+ 'C05-m3': ('C05, C11', 'an ANP completely shadowed by a higher one over a default-deny NetworkPolicy (detection was marginal)'),
+ 'C05-m4': ('C05, C10', 'the verified checker also on 200 reports with Services/Ingresses/Routes'),
+ 'C06-m5': ('C06', 'one policy for both directions, wide in one and specific in the other'),
+ 'C08-m6': ('C08, C07', 'two policies of which one already allows everything; eval answers compared as well'),
+ 'C09-m3': ('C09', 'four separate ranges of one protocol (detection was marginal)'),
+ 'C09-m4': ('C09, C06, C07, C11', 'printed exposure connection vs ProtocolsAndPortsMap()'), 'C09-m5': ('C09', 'exposure worlds governed by ipBlock rules only'),
+ 'C09-m6': ('C09', 'diff dot node declarations (now also the byte-exact model Model/DiffDot.v); a twin workload in another namespace'),
+ 'C11-m1': ('C11', 'aliasing motif: full set intersected with a set, then updated (detection was marginal)'), 'C11-m5': ('C11', 'exclude-a-name-then-reunite motif'),
+ 'C12-m5': ('C12, C06', 'phase of well-formed worlds through every command'), 'C12-m6': ('C12, C03', 'phase of well-formed worlds through every command (Namespace objects dropped)'),
+ 'C14-m4': ('C14, C01', 'empty label values in selectors and on workloads; the spelling edit prefers them'),
+ 'C16-m5': ('C16, C18', 'the real binary for default/NAME and a sample of other focus values'), 'C16-m6': ('C16', 'the focus in another letter case'),
+ 'C17-m4': ('C17', 'one port number under two protocols with two names'), 'C17-m5': ('C17', 'workloads X and X-1; a controller and a bare Pod sharing namespace/name'),
+ 'C17-m6': ('C17', 'a controller and a bare Pod sharing namespace/name in a policy-free world'),
+ 'C18-m4': ('C18', 'inputs with sub-directories'), 'C18-m5': ('C18, C16', 'default/NAME focus values'), 'C18-m6': ('C18', 'a directory diffed with itself, incl. a missing one'),
+ 'C19-m4': ('C19', 'the same BANP manifest twice'), 'C19-m6': ('C19', 'an ANP duplicated with the same name and priority'),
 }
 base = '/verif/seeded'
 for sid in sorted(os.listdir(base)):
